@@ -17,15 +17,21 @@ std::vector<BodyLog>* g_bodies = nullptr;
 
 // Body form with split/join logging
 struct CatBody {
-    Seq v; int id; int pts;
-    CatBody(int p) : id(g_next_body++), pts(p) { g_bodies->push_back({id, -1}); }
-    CatBody(CatBody& o, tbb::split) : id(g_next_body++), pts(o.pts) { g_bodies->push_back({id, o.id}); (*g_bodies)[o.id].splits++; }
+    Seq v; int id; int pts; int nested = 0;   // nested: 0 none, 1 / 2: a parallel_for (auto / static) in the middle of every leaf
+    CatBody(int p, int ne = 0) : id(g_next_body++), pts(p), nested(ne) { g_bodies->push_back({id, -1}); }
+    CatBody(CatBody& o, tbb::split) : id(g_next_body++), pts(o.pts), nested(o.nested) { g_bodies->push_back({id, o.id}); (*g_bodies)[o.id].splits++; }
     void operator()(const tbb::blocked_range<int>& r) {
         // (index each time: the log vector may grow while we are suspended at a schedule point)
         SIM_CHECK(!(*g_bodies)[id].running, "oracle:body-overlap", "reduction body %d entered concurrently", id);
         SIM_CHECK(!(*g_bodies)[id].joined, "oracle:join-order", "reduction body %d used after it was joined into its parent", id);
         (*g_bodies)[id].running = true;
-        for (int i = r.begin(); i < r.end(); ++i) v.push_back(i);
+        int mid = r.begin() + (r.end() - r.begin()) / 2;
+        for (int i = r.begin(); i < mid; ++i) v.push_back(i);
+        if (nested) {   // the thread waits here and may meanwhile take other tasks of the same reduction
+            auto leaf = [this](int) { for (int k = 0; k < 2 + pts; ++k) sim::upoint(); };
+            if (nested == 1) tbb::parallel_for(0, 4, leaf, tbb::auto_partitioner()); else tbb::parallel_for(0, 4, leaf, tbb::static_partitioner());
+        }
+        for (int i = mid; i < r.end(); ++i) v.push_back(i);
         for (int k = 0; k < pts; ++k) sim::upoint();
         (*g_bodies)[id].running = false;
     }
@@ -63,13 +69,16 @@ void scen_reduce(hx::Desc& d) {
     int n = draw_n(), g = (int)sim::draw_range(1, 8, "grain"), part = (int)sim::draw(4, "part"), form = (int)sim::draw(2, "form");
     static const int ptsv[] = {0, 1, 5, 20};
     int pts = sim::draw_of(ptsv, "points");
-    d.add(hx::fmt("parallel_reduce %s form n=%d grain=%d %s", form ? "functional" : "Body", n, g, kPart[part])); d.publish();
+    static const int nestv[] = {0, 0, 0, 1, 2};
+    int nested = form == 0 ? sim::draw_of(nestv, "nested") : 0;
+    if (nested && n > 64) n = n % 64 + 8;
+    d.add(hx::fmt("parallel_reduce %s form n=%d grain=%d %s nested=%d", form ? "functional" : "Body", n, g, kPart[part], nested)); d.publish();
     std::vector<BodyLog> logs; g_bodies = &logs; g_next_body = 0;
     tbb::blocked_range<int> range(0, n, (size_t)g);
     if (form == 0) {
         with_part(part, [&](auto& p) {
             logs.clear(); g_next_body = 0;
-            CatBody b(pts);
+            CatBody b(pts, nested);
             tbb::parallel_reduce(range, b, p);
             check_seq(b.v, n, "parallel_reduce(Body)");
             for (auto& l : logs) if (l.parent >= 0) SIM_CHECK(l.joined, "oracle:join-order", "split-off body %d was never joined back", l.id);
@@ -120,20 +129,28 @@ void scen_det(hx::Desc& d) {
 }
 
 struct ScanBody {
-    std::vector<int>* out; std::vector<uint8_t>* finals; Seq sum; int pts;
-    ScanBody(std::vector<int>* o, std::vector<uint8_t>* f, int p) : out(o), finals(f), pts(p) {}
-    ScanBody(ScanBody& b, tbb::split) : out(b.out), finals(b.finals), pts(b.pts) {}
-    template <class Tag> void operator()(const tbb::blocked_range<int>& r, Tag) {
-        for (int i = r.begin(); i < r.end(); ++i) {
-            if (Tag::is_final_scan()) {
-                // incoming prefix must be exactly 0..i-1
-                SIM_CHECK((int)sum.size() == i, "oracle:scan-prefix", "final scan of element %d sees a prefix of %zu operands", i, sum.size());
-                if (!sum.empty()) SIM_CHECK(sum.back() == i - 1 && sum.front() == 0, "oracle:scan-prefix", "final scan of element %d sees a wrong prefix", i);
-                (*finals)[i]++;
-                (*out)[i] = (int)sum.size();
-            }
-            sum.push_back(i);
+    std::vector<int>* out; std::vector<uint8_t>* finals; Seq sum; int pts; int nested;   // nested: 0 none, 1 auto, 2 static: a parallel_for in the middle of every leaf
+    ScanBody(std::vector<int>* o, std::vector<uint8_t>* f, int p, int ne) : out(o), finals(f), pts(p), nested(ne) {}
+    ScanBody(ScanBody& b, tbb::split) : out(b.out), finals(b.finals), pts(b.pts), nested(b.nested) {}
+    template <class Tag> void one(int i) {
+        if (Tag::is_final_scan()) {
+            // incoming prefix must be exactly 0..i-1
+            SIM_CHECK((int)sum.size() == i, "oracle:scan-prefix", "final scan of element %d sees a prefix of %zu operands", i, sum.size());
+            if (!sum.empty()) SIM_CHECK(sum.back() == i - 1 && sum.front() == 0, "oracle:scan-prefix", "final scan of element %d sees a wrong prefix", i);
+            (*finals)[i]++;
+            (*out)[i] = (int)sum.size();
         }
+        sum.push_back(i);
+    }
+    template <class Tag> void operator()(const tbb::blocked_range<int>& r, Tag) {
+        int mid = r.begin() + (r.end() - r.begin()) / 2;
+        for (int i = r.begin(); i < mid; ++i) one<Tag>(i);
+        if (nested) {
+            // nested parallelism inside the body: the thread waits here and may meanwhile take other tasks of the scan
+            auto leaf = [this](int) { for (int k = 0; k < 2 + pts; ++k) sim::upoint(); };
+            if (nested == 1) tbb::parallel_for(0, 4, leaf, tbb::auto_partitioner()); else tbb::parallel_for(0, 4, leaf, tbb::static_partitioner());
+        }
+        for (int i = mid; i < r.end(); ++i) one<Tag>(i);
         for (int k = 0; k < pts; ++k) sim::upoint();
     }
     void reverse_join(ScanBody& a) { Seq t = a.sum; t.insert(t.end(), sum.begin(), sum.end()); sum.swap(t); }
@@ -142,9 +159,12 @@ struct ScanBody {
 void scen_scan(hx::Desc& d) {
     int n = draw_n() % 300, g = (int)sim::draw_range(1, 8, "grain"), part = (int)sim::draw(2, "part");
     int pts = (int)sim::draw(4, "points");
-    d.add(hx::fmt("parallel_scan n=%d grain=%d %s", n, g, part ? "auto" : "simple")); d.publish();
+    static const int nestv[] = {0, 0, 1, 2, 2};
+    int nested = sim::draw_of(nestv, "nested");
+    if (nested && n > 60) n = n % 60 + 8;      // nested runs are more expensive per leaf
+    d.add(hx::fmt("parallel_scan n=%d grain=%d %s nested=%s", n, g, part ? "auto" : "simple", nested == 0 ? "none" : nested == 1 ? "parallel_for(auto)" : "parallel_for(static)")); d.publish();
     std::vector<int> out(n, -1); std::vector<uint8_t> finals(n, 0);
-    ScanBody b(&out, &finals, pts);
+    ScanBody b(&out, &finals, pts, nested);
     tbb::blocked_range<int> range(0, n, (size_t)g);
     if (part) tbb::parallel_scan(range, b, tbb::auto_partitioner()); else tbb::parallel_scan(range, b, tbb::simple_partitioner());
     for (int i = 0; i < n; ++i) SIM_CHECK(finals[i] == 1, "oracle:scan-final-count", "final pass ran %d times for element %d", (int)finals[i], i);
